@@ -3,5 +3,6 @@ CONSTANTS
   Templates <- AllTemplates
   FaultKinds = {"null", "cbfail"}
   Schedules = {"all", "one", "s3i"}
+  Declines = {"none", "first", "second", "all"}
 INVARIANTS TypeOK Replay
 CHECK_DEADLOCK FALSE
